@@ -42,6 +42,8 @@ var c08Archs = []c08Arch{
 	{Name: "stray-end-marker", Text: "  foo\n##!<\n", Fails: true, FailsFormat: true},
 	// offsets that are not spelled canonically name the file as written
 	{Name: "chain01-spelling", Text: "  padded\nlink\n", Chain: true, Spell: "-chain01"},
+	// many include-except directives in one process (two such files resolve 18 of them)
+	{Name: "many-include-excepts", Text: strings.Repeat("##!> include-except helper2 helperx\n", 9) + "own\n"},
 	{Name: "chain0-spelling", Text: "  zero\noffset\n", Spell: "-chain0"},
 }
 
@@ -75,6 +77,8 @@ func c08Build(sel []int) c08Tree {
 		case ar.Include:
 			p := fmt.Sprintf("regex-assembly/include/helper%d.ra", i)
 			t[p] = ar.Text
+			// a file of the same name in the exclude directory, already formatted: `format helperN` means the include file
+			t[fmt.Sprintf("regex-assembly/exclude/helper%d.ra", i)] = "##! Please refer to the documentation at\n##! https://coreruleset.org/docs/development/regex_assembly/.\n\ntwin\n"
 			files = append(files, c08File{a, fmt.Sprintf("helper%d", i), p, ""})
 		case ar.Chain:
 			sp := "-chain1"
